@@ -18,6 +18,9 @@ type hv struct{ ID, Tag int }
 
 func (v hv) Hashcode() interface{} { return v.ID }
 
+// String: display names collide on purpose (identity is the hash code, never the name)
+func (v hv) String() string { return fmt.Sprintf("n%d", v.ID%2) }
+
 func vid(x interface{}) string {
 	switch t := x.(type) {
 	case nil:
@@ -346,6 +349,34 @@ func genDij(w *bufio.Writer, r *rng, id int, maxN int, palette string) {
 	d := randDigraph(r, maxN, weights, false)
 	g := d.build()
 	src := r.intn(d.n)
+	if exhIdx < 0 && r.chance(1, 4) && len(d.edges) > 0 {
+		// searched through a reversed view, after an earlier search of that view and a change made through the
+		// original handle: the second search must see the graph as it is now
+		rv := g.Reverse()
+		func() {
+			defer func() { recover() }()
+			dijkstraCall(rv, src)
+		}()
+		e := d.edges[r.intn(len(d.edges))]
+		if r.chance(1, 2) {
+			g.RemoveEdge(hv{ID: e.u}, hv{ID: e.v})
+			var kept []edge
+			for _, x := range d.edges {
+				if !(x.u == e.u && x.v == e.v) {
+					kept = append(kept, x)
+				}
+			}
+			d.edges = kept
+		} else {
+			nw := weights[r.intn(len(weights))]
+			g.AddEdgeWeighted(hv{ID: e.u}, hv{ID: e.v}, nw)
+			d.edges = append(d.edges, edge{e.u, e.v, nw})
+		}
+		for i := range d.edges {
+			d.edges[i].u, d.edges[i].v = d.edges[i].v, d.edges[i].u
+		}
+		g = rv
+	}
 	fmt.Fprintf(w, "scn dij %d palette=%s\n%s\nsrc %d\n", id, palette, d.line(), src)
 	var pops []string
 	am.VerifSetPopHook(func(v interface{}) { pops = append(pops, vid(v)) })
